@@ -120,7 +120,7 @@ JudgeTransform(e, P, O) ==
           IF e.outcome = 2 THEN {"C05_other_exception"}
           ELSE IF e.outcome = 1
             THEN Flag(rej, "C05_spurious_rejection")
-                 \cup (IF rej THEN Flag(e.named \in RejectingFeatures(P, e.frame), "C05_feature_not_named") ELSE {})
+                 \cup (IF rej THEN Flag(\E i \in DOMAIN e.named : e.named[i] \in RejectingFeatures(P, e.frame), "C05_feature_not_named") ELSE {})
           ELSE Flag(~rej, "C05_not_rejected")
            \cup Flag(e.shape_ok, "C07_index_or_columns_changed")
            \cup (IF rej THEN {} ELSE
